@@ -3,6 +3,7 @@ import Eru.Lock.Filter
 import Eru.Lock.Order
 import Eru.Lock.Redis
 import Eru.Lock.Etcd
+import Eru.Lock.Ctx
 /- Oracle for the lock group (C18–C21): runs the model on the case, compares with the
    implementation's result and evaluates the specification predicates on the implementation's
    output. Not part of any model or proof. -/
@@ -195,6 +196,7 @@ def etcdCmd (c : SCmd) : Option Etcd.Cmd :=
   | "lock" => some (.lock c.c) | "trylock" => some (.tryLock c.c) | "unlock" => some (.unlock c.c)
   | "lockasync" => some (.lockAsync c.c) | "join" => some (.join c.c)
   | "revoke" => some (.revoke c.c) | "observe" => some (.observe c.c)
+  | "sleep" => some (.sleep c.dt)
   | _ => none
 
 /-- protocol-independent specification evaluated on the implementation's results:
@@ -213,7 +215,8 @@ structure SpecSt where
 def withinLease (redis : Bool) (ttl : Nat) (st : SpecSt) (h : Nat × Nat) : Bool :=
   if redis then st.now < h.2 + ttl else !st.lost.contains h.1
 
-def specStep (redis : Bool) (ttl : Nat) (st : SpecSt) (c : SCmd) (res : String) (slow : Bool) : SpecSt :=
+def specStep (redis : Bool) (ttl wait : Nat) (st : SpecSt) (c : SCmd) (res : String) (flag : String) : SpecSt :=
+  let slow := flag == "slow"
   let liveOthers := st.holders.filter fun h => h.1 != c.c && withinLease redis ttl st h
   let isAcq := c.op == "lock" || c.op == "trylock" || c.op == "lockasync" || c.op == "join"
   if isAcq && res == "acquired" then
@@ -226,9 +229,15 @@ def specStep (redis : Bool) (ttl : Nat) (st : SpecSt) (c : SCmd) (res : String) 
     -- a client blocked in Lock may get the key at any moment (etcd: its queued key is older; redis: its
     -- next retry): refusing a later client then is legitimate
     let behindQueue := !(st.queued.filter (· != c.c)).isEmpty
-    let v1 := if liveOthers.isEmpty && !behindQueue && c.op != "lockasync" then ["C18:refused-when-free"] else []
+    -- a redis waiter only looks again at its retry instants (every 500 ms): with a wait timeout of at
+    -- most one interval it never retries before its deadline
+    let neverRetries := redis && c.op == "join" && wait ≤ 500
+    let v1 := if liveOthers.isEmpty && !behindQueue && !neverRetries && c.op != "lockasync" then ["C18:refused-when-free"] else []
     let v2 := if c.op == "trylock" && slow then ["C18:trylock-waited"] else []
-    { st with viol := st.viol ++ v1 ++ v2, queued := st.queued.filter (· != c.c) }
+    -- a waiting Lock fails when its wait timeout expires: not (much) before, not (much) after
+    let v3 := if c.op != "trylock" && flag == "early" then ["C18:waiter-gave-up-early"] else []
+    let v4 := if c.op != "trylock" && flag == "late" then ["C18:waiter-overstayed"] else []
+    { st with viol := st.viol ++ v1 ++ v2 ++ v3 ++ v4, queued := st.queued.filter (· != c.c) }
   else if isAcq && res == "blocked" then
     let behindQueue := !(st.queued.filter (· != c.c)).isEmpty
     { st with viol := st.viol ++ (if liveOthers.isEmpty && !behindQueue then ["C18:blocked-when-free"] else []),
@@ -249,26 +258,45 @@ def specStep (redis : Bool) (ttl : Nat) (st : SpecSt) (c : SCmd) (res : String) 
     | none => st
   else st
 
+def handleMultiKey (j : Json) : Json :=
+  let id := jget j "id"
+  let n := jnat (jget j "nkeys")
+  let lose := jnat (jget j "lose")
+  let lost := (List.range n).map (· == lose)
+  let model := match Ctx.seen false lost with
+    | .live => "ctx-live" | .sessionDone => "ctx-session-done" | .cancelled => "ctx-cancelled"
+  let impl := jget j "impl"
+  let res := (strs (jget impl "res")).headD "?"
+  let flag := (strs (jget impl "flags")).headD ""
+  let viol := (if res == "ctx-live" && Ctx.callbackCtx false lost then ["C19:lost-lock-not-signalled:multi-key"] else []) ++
+    (if flag == "slow" then ["C19:signalled-late"] else [])
+  verdict id (res == model && !jhas impl "err" && !jhas impl "panic" && !jhas impl "timeout") (Json.str model) viol
+    ("etcd-loss-multikey-" ++ jstr (jget j "helper")) false
+
 def handleSched (j : Json) : Json :=
+  if jstr (jget j "kind") == "multikey" then handleMultiKey j else
   let id := jget j "id"
   let backend := jstr (jget j "backend")
   let redis := backend == "redis"
   let ttl := jnat (jget j "ttl_ms")
+  let wait := if jhas j "wait_ms" then jnat (jget j "wait_ms") else ttl
   let n := jnat (jget j "clients")
   let cmds := (jarr (jget j "cmds")).map scmdOfJson
   let impl := jget j "impl"
   let ires := strs (jget impl "res")
-  let islow := (jarr (jget impl "slow")).map jbool
+  let islow : List String :=
+    if jhas impl "flags" then strs (jget impl "flags")
+    else (jarr (jget impl "slow")).map fun b => if jbool b then "slow" else ""
   let model : List String :=
     if redis then
-      (Redis.replay ⟨ttl, 500⟩ Redis.init (cmds.filterMap redisCmd)).map Redis.Res.str
+      (Redis.replay ⟨ttl, wait, 500⟩ Redis.init (cmds.filterMap redisCmd)).map Redis.Res.str
     else
       (Etcd.replay ttl Etcd.init (cmds.filterMap etcdCmd)).map Etcd.Res.str
   let wellFormed := if redis then cmds.all (fun c => (redisCmd c).isSome) else cmds.all (fun c => (etcdCmd c).isSome)
   let agree := wellFormed && model == ires && !jhas impl "panic"
-  let rec go (st : SpecSt) : List SCmd → List String → List Bool → SpecSt
-    | c :: cs, r :: rs, sl :: sls => go (specStep redis ttl st c r sl) cs rs sls
-    | c :: cs, r :: rs, [] => go (specStep redis ttl st c r false) cs rs []
+  let rec go (st : SpecSt) : List SCmd → List String → List String → SpecSt
+    | c :: cs, r :: rs, sl :: sls => go (specStep redis ttl wait st c r sl) cs rs sls
+    | c :: cs, r :: rs, [] => go (specStep redis ttl wait st c r "") cs rs []
     | _, _, _ => st
   let fin := go {} cmds ires islow
   let hasAsync := cmds.any (·.op == "lockasync")
@@ -281,10 +309,11 @@ def handleSched (j : Json) : Json :=
   -- stalled for a whole TTL, three times in a row) say nothing about the code: not judged
   if jbool (jget impl "perturbed") then verdict id true (jstrs model) [] "perturbed" true else
   -- three runs in a row violated the schedule's real-time assumptions (calls that do not wait by
-  -- design took > 300 ms, client-side deadlines hit): mutual exclusion is still judged on the results,
+  -- design took > 300 ms, client-side deadlines hit): mutual exclusion and missing loss signals are still judged on the results,
   -- outcome equality and the timing clauses are not
   if jbool (jget impl "timing_off") then
-    let v := ((go {} cmds ires islow).viol.eraseDups).filter (· == "C18:two-holders-within-lease")
+    let v := ((go {} cmds ires islow).viol.eraseDups).filter fun x =>
+      x == "C18:two-holders-within-lease" || x == "C19:redis-ttl-expiry-not-signalled" || x == "C19:etcd-loss-not-signalled"
     verdict id true (jstrs model) v "timing-off" true else
   verdict id agree (jstrs model) fin.viol.eraseDups cls (!contended && !fin.overlap && !hasLoss)
 
